@@ -15,15 +15,33 @@ structure Ctx where
   script  : List (Nat × List Beh)
   /-- all functions share one code pointer (reflect.MakeFunc) -/
   sameIds : Bool := true
+  /-- functions with a result of a *value* type that implements `error` (a struct with a value-receiver `Error`
+      method): such a result is never a nil interface, so every execution that returns at all returns a non-nil
+      error.  Per function: the index (among its error results) of the one dig reports, and whether that is the
+      last declared result (the only one `Invoke` looks at).  Computed from the signatures by `Program.ctx`. -/
+  forced  : List (Nat × Nat × Bool) := []
   deriving Repr, Inhabited
 
 /-- constructor ID (`dot.CtorID`): a code pointer.  Functions made by reflect.MakeFunc all share one. -/
 def ctorId (sameIds : Bool) (fn : Fn) : Nat := if sameIds then 1000 else 1000 + fn.id
 
-def Ctx.beh (ctx : Ctx) (f x : Nat) : Beh :=
+/-- what the script says about execution `x` of `f` -/
+def Ctx.scripted (ctx : Ctx) (f x : Nat) : Beh :=
   match ctx.script.find? (·.1 == f) with
   | some (_, l) => l.getD x {}
   | none => {}
+
+/-- how execution `x` of `f` behaves: as scripted, except that a function with a value-typed error result fails
+    whenever it returns (a scripted error in another position stays where it is unless the value-typed one is the
+    last result: every constructor and decorator call fails either way, and `Invoke` looks at the last result only) -/
+def Ctx.beh (ctx : Ctx) (f x : Nat) : Beh :=
+  let b := ctx.scripted f x
+  match ctx.forced.find? (·.1 == f) with
+  | none => b
+  | some (_, idx, isLast) =>
+    if b.k == .panic then b
+    else if b.k == .err && !isLast then b
+    else { b with k := .err, eslot := idx }
 
 /-- ways an engine step can end without a value -/
 inductive Fail where
